@@ -45,13 +45,13 @@ func (panicky) String() string { panic("value that panics while being formatted"
 
 type c09probe struct {
 	minW, tagW int
-	f    Format
-	name string
-	lvl  slog.Level
-	ts   time.Time
-	msg  string
-	kvs  []gen.KV
-	spy  bool
+	f          Format
+	name       string
+	lvl        slog.Level
+	ts         time.Time
+	msg        string
+	kvs        []gen.KV
+	spy        bool
 }
 
 func c09hist(c *Ctx) {
